@@ -26,6 +26,8 @@ deriving Inhabited
 structure S where
   prev : List Ord := []
   prevBank : FMap (String × String) := []
+  /-- the observation at the end of the previous block (its prices are in force until a feed of this block replaces them) -/
+  prevObs : Option Snapshot := none
   started : Bool := false
   deriving Inhabited
 
@@ -44,11 +46,25 @@ def marketOf (o : Snapshot) (ord : Ord) : Int :=
     if pout == 0 then 0 else Dec.quo pin pout
   else o.perpAtom
 
+/-- the observation `o` with the ATOM price replaced by `atomRaw` (the price one feed transaction carries): the per-base-unit
+denom price is `price.Quo(10^decimals)` with six decimals, the perpetual keeper's price is the asset price itself. -/
+def withAtom (o : Snapshot) (atomRaw : Int) : Snapshot :=
+  { o with denomPrices := FMap.set o.denomPrices "uatom" (Dec.quo atomRaw (1000000 * P)), perpAtom := atomRaw }
+
+/-- the prices in force when transaction number `k` of the block ran: those of the last successful feed before it in this block,
+else those at the end of the previous block. -/
+def pricesAt (pre : Snapshot) (txs : List TxObs) (k : Nat) : Snapshot :=
+  match ((txs.take k).filter (fun t => t.kind == "oracle.feed" && t.code == 0)).getLast? with
+  | some t => match fInt? t.f "ATOM" with
+    | some a => withAtom pre a
+    | none => pre
+  | none => pre
+
 def handle (s : S) (i : Nat) (j : Json) : S × List Json :=
   match fStr? j "t" with
   | some "hist.begin" =>
     let o := Snapshot.parse (fld j "obs")
-    ({ prev := ordersOf o, prevBank := o.bank, started := true }, [verdictOk i])
+    ({ prev := ordersOf o, prevBank := o.bank, prevObs := some o, started := true }, [verdictOk i])
   | some "hist.step" =>
     if !s.started then (s, [verdictBad i "hist.step before hist.begin"]) else
     let st := parseStep j
@@ -56,9 +72,21 @@ def handle (s : S) (i : Nat) (j : Json) : S × List Json :=
     let cur := ordersOf st.obs
     let okTx (kinds : List String) (spot : Bool) (id : Nat) : Bool :=
       st.txs.any (fun t => t.code == 0 && kinds.contains t.kind && ((fInt? t.f "id").getD (-1)).toNat == id && (t.kind.startsWith "ts.spot") == spot)
-    let feedAfterExecute : Bool :=
-      -- the generator puts price feeds first in a block; if that ever changes the trigger clause is not judged
-      (st.txs.dropWhile (fun t => t.kind != "ts.execute")).any (fun t => t.kind == "oracle.feed")
+    -- the price an execution compares with is the one in force when its ts.execute ran: a feed may come before, between or after the
+    -- execution requests of a block. An order named by successful requests that ran under different prices is not judged.
+    let idxd := (List.range st.txs.length).zip st.txs
+    let namesOrder (t : TxObs) (ord : Ord) : Bool :=
+      t.kind == "ts.execute" && t.code == 0 &&
+        (((fld t.f (if ord.spot then "spot" else "perp")).getArr?.toOption.getD #[]).toList.any (fun x => ((jInt? x).getD (-1)).toNat == ord.id))
+    let marketAt (ord : Ord) : Option Int :=
+      match s.prevObs with
+      | none => none
+      | some pre =>
+        let ms := (idxd.filter (fun (_, t) => namesOrder t ord)).map (fun (k, _) => marketOf (pricesAt pre st.txs k) ord)
+        match ms with
+        | [] => none
+        | m :: rest => if rest.all (· == m) then some m else none
+    let feedAfterExecute : Bool := false
     -- 1. model replay per previously pending order: which op explains what happened to it
     let perOrder := s.prev.map fun ord =>
       let still := cur.any (fun c => c.key == ord.key)
@@ -73,7 +101,7 @@ def handle (s : S) (i : Nat) (j : Json) : S × List Json :=
       let ord := { ord with rate := rate }
       -- the price an execution compared with is the one in force when ts.execute ran; when a feed follows it in the same
       -- block that price is not in the observation (W: the witnessed outcome stands, the trigger clause is not judged)
-      let market := if feedAfterExecute then ord.rate else marketOf st.obs ord
+      let market := (marketAt ord).getD ord.rate   -- not judged (`rate` triggers every kind) when the price in force is not determined
       let op : Option Op :=
         if cancelled then some (.cancel ord.key ord.owner)
         else if !still then some (.execute ord.key ord.kind market ord.rate true 0 true)
@@ -125,7 +153,7 @@ def handle (s : S) (i : Nat) (j : Json) : S × List Json :=
        | some (ord, _, _, _, _, _) => [verdictViol i "C20.cancel_returns_all" (Json.mkObj [("spot", ord.spot), ("id", ord.id), ("leftInEscrow", mkInt (escrowNow ord))])]
        | none => [])
     let vs := diffs ++ viols
-    ({ s with prev := cur, prevBank := st.obs.bank }, if vs.isEmpty then [verdictOk i] else vs)
+    ({ s with prev := cur, prevBank := st.obs.bank, prevObs := some st.obs }, if vs.isEmpty then [verdictOk i] else vs)
   | some "stats" => (s, [])
   | _ => (s, [verdictBad i "unknown t"])
 
